@@ -23,6 +23,8 @@ func checkC06(c *Check, a *Anchors) {
 	sharedWait(c, a)
 	c06HashSeesInputs(c, a)
 	c06OnceKey(c, a)
+	hashOptionsDefault(c, a)
+	compiledFromDefinition(c, a, "compiled-from-definition")
 }
 
 func c06RunModeSwitch(c *Check, a *Anchors) {
